@@ -23,6 +23,12 @@ pub fn unescape_tla(s: &str) -> String {
     out
 }
 
+pub fn parse_p_line(line: &str) -> Option<Value> {
+    let rest = line.strip_prefix("<<\"P\", \"")?;
+    let body = rest.strip_suffix("\">>")?;
+    serde_json::from_str(&unescape_tla(body)).ok()
+}
+
 pub fn parse_b_line(line: &str) -> Option<Value> {
     let rest = line.strip_prefix("<<\"B\", \"")?;
     let body = rest.strip_suffix("\">>")?;
@@ -98,7 +104,7 @@ impl Ctx<'_> {
             let rec = json!({
                 "kind": kind, "pat": beh["pat"], "pat_s": cps_str(&beh["pat"]), "flags": cps_str(&beh["flags"]),
                 "x": beh["x"], "s": s, "s_s": cps_str(s), "call": call, "expected": expected, "observed": &observed,
-                "repl2": beh["repl2"], "unopt": beh["unopt"],
+                "repl2": beh["repl2"], "unopt": beh["unopt"], "law": beh["law"], "pat2_s": beh["pat2_s"],
                 "cut": cut,
             });
             if let Some(f) = self.viol.lock().unwrap().as_mut() {
@@ -230,6 +236,53 @@ fn compare(ctx: &Ctx, beh: &Value, reply: &Value) {
     }
 }
 
+/// law pairs: the two spellings must agree with each other on the real code
+fn compare_pair(ctx: &Ctx, pair: &Value, reply: &Value) {
+    let same = pair["same"].as_str().unwrap_or("m");
+    let (r1, r2) = (reply["res"].as_array(), reply["res2"].as_array());
+    let (r1, r2) = match (r1, r2) {
+        (Some(a), Some(b)) if a.len() == b.len() => (a, b),
+        _ => {
+            if reply["compile"]["k"] != reply["compile2"]["k"] {
+                ctx.violation("pair", &pair["a"], &json!([]), "compile", reply["compile"].clone(), reply["compile2"].clone());
+            }
+            return;
+        }
+    };
+    let cases = pair["a"]["cases"].as_array().cloned().unwrap_or_default();
+    let per = 5;
+    let names = ["is_match", "replace0", "replace2", "tokenize", "analyze"];
+    for (ci, case) in cases.iter().enumerate() {
+        for j in 0..per {
+            let (a, b) = (strip_iter_meta(&r1[ci * per + j]), strip_iter_meta(&r2[ci * per + j]));
+            if fault_kind(&a).is_some() || fault_kind(&b).is_some() {
+                continue;
+            }
+            let relevant = match (same, j) {
+                (_, 0) => true,
+                ("all", _) => true,
+                ("spans", 1) | ("spans", 3) => true,
+                _ => false,
+            };
+            if !relevant {
+                continue;
+            }
+            ctx.bump(0, if j == 0 { "pair_m" } else { "pair" });
+            let eq = if same == "spans" && j == 4 { flat(&a["v"]) == flat(&b["v"]) } else { a == b };
+            if !eq {
+                let mut beh = pair["a"].clone();
+                beh["pat2_s"] = json!(cps_str(&pair["b"]["pat"]));
+                beh["law"] = pair["law"].clone();
+                let mut obs = b.clone();
+                if let Some(c) = r1[ci * per + j].get("cut").or(r2[ci * per + j].get("cut")) {
+                    obs["cut"] = c.clone();
+                }
+                ctx.violation(if j == 0 { "pair_m" } else { "pair" }, &beh, &case["s"], names[j], a, obs);
+            }
+        }
+    }
+}
+
 fn job_of(beh: &Value, id: u64) -> Value {
     let mut calls = Vec::new();
     let r0 = json!([91, 36, 48, 93]);
@@ -281,6 +334,19 @@ pub fn main(args: &[String]) -> i32 {
                 }
                 None => println!("REPLAY-BADLINE {}", &l[..l.len().min(200)]),
             }
+        } else if l.starts_with("<<\"P\"") {
+            match parse_p_line(&l) {
+                Some(pair) => {
+                    id += 1;
+                    let mut j = job_of(&pair["a"], id);
+                    j["pat2"] = pair["b"]["pat"].clone();
+                    j["flags2"] = pair["b"]["flags"].clone();
+                    j["x2"] = pair["b"]["x"].clone();
+                    j["pair"] = pair.clone();
+                    pending.push(j);
+                }
+                None => println!("REPLAY-BADLINE {}", &l[..l.len().min(200)]),
+            }
         } else {
             println!("{}", l);
         }
@@ -304,6 +370,12 @@ pub fn main(args: &[String]) -> i32 {
             }
         }
         compare(&ctx, beh, &reply);
+        if job.get("pair").is_some() {
+            let pair = &job["pair"];
+            let reply2 = json!({"compile": reply["compile2"], "res": reply["res2"]});
+            compare(&ctx, &pair["b"], &reply2);
+            compare_pair(&ctx, pair, &reply);
+        }
     });
     let st = stats.lock().unwrap();
     let out = json!({
